@@ -77,6 +77,9 @@ AndLaws == /\ \A v, w \in Vs : And(v, w) = And(w, v)
            /\ \A u, v, w \in Vs : And(And(u, v), w) = And(u, And(v, w))
            /\ \A v \in Vs : And("Invalid", v) = "Invalid" /\ And("Valid", v) = v
            /\ And("Unknown", "Valid") = "Unknown"
+(* the two predicates users gate on: strict = identical interfaces only; relaxed also lets a missing description through *)
+Strict(v) == v = "Valid"
+Relaxed(v) == v # "Invalid"
 ASSUME AndLaws
 (* the statement of C20 on the enumerated edits: Valid exactly for interface-preserving edits *)
 ASSUME \A e \in EditSet : (Verdict(Base, e.def) = "Valid") <=> (e.name \in Preserving)
@@ -88,5 +91,6 @@ Next == UNCHANGED done
 Emit == PrintT(<<"REPLAY", ToJson([
    traits |-> {[name |-> e.name, def |-> e.def, expect |-> Verdict(Base, e.def)] : e \in EditSet},
    groups |-> {[name |-> e, def |-> GEdits[e], expect |-> GVerdict(GBase, GEdits[e])] : e \in DOMAIN GEdits},
-   ands   |-> {[a |-> v, b |-> w, r |-> And(v, w)] : v \in Vs, w \in Vs}])>>)
+   ands   |-> {[a |-> v, b |-> w, r |-> And(v, w)] : v \in Vs, w \in Vs},
+   preds  |-> {[v |-> v, strict |-> Strict(v), relaxed |-> Relaxed(v)] : v \in Vs}])>>)
 =============================================================================
